@@ -83,7 +83,7 @@ def density_body_factory(ctx):
             lpx = np.asarray(pm.logp(dist.UniformLog.dist(a, b), xs).eval(), dtype=float)
             f = np.exp(lpx) * xs * math.log(b / a)
             integral = float(np.sum(f) / 4000.0)
-            if abs(integral - 1) > 1e-6:
+            if not (abs(integral - 1) <= 1e-6):
                 raise Violation("UniformLog log-density does not integrate to 1 over its support", a=a, b=b, integral=integral)
             edge = bool(inside.any() and (~inside).any())
         elif kind == "FixedCompanionMass":
